@@ -49,8 +49,10 @@ def job(j):
             if len(c["inputs"]) > 6 or len(c["rets"]) > 4 or len(c["inputs"]) == 0:
                 continue
             from qlasskit.boolopt.bool_optimizer import merge_expressions
-            if all(ser.ser_expr(e)["op"] in ("true", "false") for _, e in merge_expressions(qf.expressions)):
+            merged = merge_expressions(qf.expressions)
+            if all(ser.ser_expr(e)["op"] in ("true", "false") for _, e in merged):
                 continue  # constant function: there is no variable to build a model over (degenerate, outside the property)
+            c["merged"] = ser.ser_exprs(merged)   # input of the refinement model (spec/BQM.tla): sympy's simplification is recorded
         except _TO:
             signal.alarm(0)
             continue
@@ -100,6 +102,23 @@ def run(pid):
     vlog("models", len(cases))
     with Scratch("C18") as sc:
         verdicts, stats = tlc.run_cases("Trace_C18", cases, sc, timeout=2400, heap="4g")
+        # refinement binding: spec/BQM.tla (the visitor and the summation as written) predicts the recorded tree from the merged
+        # definitions; drift is evidence only.  MC_BQM: the visitor's tree is faithful on every ExprGen tree and assignment.
+        bcases = [{"id": c["id"], "merged": c["merged"], "tree": c["trees"]["bqm"], "exc": c["exc"]} for c in cases if "merged" in c]
+        bverd, _ = tlc.run_cases("Trace_BQM", bcases, sc, timeout=1200, heap="4g") if bcases else ({}, {})
+        mc = tlc.run_model("MC_BQM", "SPECIFICATION Spec\nCONSTANTS MaxTok = %d\n Syms = {\"a\",\"b\",\"c\"}\n WithConst = TRUE\nINVARIANT BqmOK\nCHECK_DEADLOCK FALSE\n"
+                           % (5 if t == "quick" else 6), sc, workers=8, timeout=1800, tags=("B",), heap="6g")
+    refinement = {"spec": "BQM.tla via Trace_BQM", "calls_replayed": len(bcases), "verdicts": {}, "drift_samples": [],
+                  "model_checking": {"module": "MC_BQM", "stats": mc["stats"], "broken_invariant": mc.get("violated"),
+                                     "faithful_trees": sum(1 for v in mc["prints"]["B"] if v[1] == "faithful"),
+                                     "not_translated_trees": sum(1 for v in mc["prints"]["B"] if v[1] != "faithful")}}
+    byid = {c["id"]: c for c in cases}
+    for b in bcases:
+        v = bverd[b["id"]]
+        refinement["verdicts"][v] = refinement["verdicts"].get(v, 0) + 1
+        if v.startswith("drift") and len(refinement["drift_samples"]) < 5:
+            refinement["drift_samples"].append({"src": byid[b["id"]]["key"], "verdict": v})
+    vlog("bqm refinement", refinement["verdicts"])
     vst, skips, clauses, asg = {}, {}, {}, 0
     for c in cases:
         v = verdicts[c["id"]]
@@ -119,7 +138,7 @@ def run(pid):
            "evaluations": len(cases), "distinct_nontrivial": vst.get("ok", 0),
            "rule": "one case = one function handed to to_bqm in the four formats; the energy of the recorded model tree is evaluated by TLC on every assignment of inputs and auxiliaries",
            "assignments_enumerated": asg, "verdicts": vst, "skips": skips, "failing_clauses": clauses,
-           "states": stats["distinct"], "transitions": stats["generated"]}
+           "states": stats["distinct"], "transitions": stats["generated"], "refinement": refinement}
     vac = None if vst.get("ok", 0) >= 60 else f"ok={vst.get('ok', 0)}"
     return rep.finish(cov, T0.s(), assumptions=[
         "pyqubo is replaced by the recording stand-in /verif/stubs/pyqubo; the claim is about the tree qlasskit builds",
